@@ -73,6 +73,10 @@ class TaskHandler:
         future.add_done_callback(callback)
         return future
 
+    def open(self):
+        """Accept tasks (again): flush closes the handler, a restart of the agent opens it again."""
+        self._open = True
+
     def flush(self):
         """Await completion of all pending tasks."""
         self._open = False
